@@ -309,6 +309,21 @@ def validate_trace(spec_dir, module, cfg, trace, parallel=None, timeout=1800, he
     for (p, start, n), r in results:
         states += r.distinct
         if r.other_error:
+            # An evaluation error raised while TLC was explaining an event (after the initial state was computed)
+            # means the logged observation has a shape no specification step can even be evaluated on (e.g. an
+            # error code where a boolean is due): that event is unexplained.  Anything earlier is machinery.
+            if "Finished computing initial states" in r.out and ("evaluating" in r.out or "was evaluating" in r.out or "Attempted to" in r.out):
+                d = max(_violation_depth(r.out), r.depth, 1)
+                idx = min(start + d - 1, len(lines) - 1)
+                ev = _parse(lines, idx)
+                rejections.append(Rejection(trace, idx, ev, _scenario_prefix(lines, idx),
+                                            "TLC could not evaluate any specification step on this event (%s)" % r.other_error[:200]))
+                events += max(0, d - 1)
+                try:
+                    os.remove(p)
+                except OSError:
+                    pass
+                continue
             raise MachineryError("TLC failed validating %s: %s\n%s" % (p, r.other_error, r.out[-3000:]))
         if r.invariant is not None:
             # an invariant failed in the state reached after event (depth-1) of the chunk
